@@ -114,8 +114,9 @@ def kf_triggers(evs):
                 pass
         if be["op"] == "rollback" or (be["op"] == "upgrade" and fl["atomic"]):
             # L3: a hook failing during rollback returns without recording the failure
-            if any(x["kind"] == "wait" and x["verb"] == "watch" for x in injs) or \
-               any(x["kind"] == "res" and not x["ok"] and x["id"].startswith("h") and x["verb"] in ("POST", "DELETE") and x["inj"] for x in calls):
+            if any(x["kind"] == "wait" and x["verb"] == "watch" and not x["ok"] for x in calls) or \
+               any(x["kind"] == "res" and not x["ok"] and x["id"].startswith("h") and x["verb"] == "POST" for x in calls) or \
+               any(x["kind"] == "res" and x["id"].startswith("h") and x["verb"] == "DELETE" and x["inj"] for x in calls):
                 tr.append(("KF-L3-rollback-hook-failure-leaves-pending", b))
         if be["op"] == "upgrade" and fl["atomic"] and not ok:
             # L4: the atomic rollback diffs against the failed revision's manifest
